@@ -154,7 +154,12 @@ func c10Conn(k *core.Case) {
 		for i := 0; i < n; i++ {
 			switch rr.Intn(8) {
 			case 0:
-				tr.do("Batch.Read", func() { b.Read(buf) })
+				// a buffer shorter than the value takes the io.ErrShortBuffer path (offset rolled back, batch error set)
+				rb := buf
+				if rr.Chance(1, 3) {
+					rb = make([]byte, 2) // the capacity counts, not the length
+				}
+				tr.do("Batch.Read", func() { b.Read(rb) })
 			case 1, 2:
 				tr.do("Batch.ReadMessage", func() { b.ReadMessage() })
 			case 3:
@@ -165,6 +170,12 @@ func c10Conn(k *core.Case) {
 				tr.do("Batch.Err", func() { _ = b.Err() })
 			case 7:
 				tr.do("Batch.Close", func() { b.Close() })
+			}
+			// now and then stay away from the batch for a moment: whatever the call left unsynchronised
+			// behind its last unlock is only ordered with other goroutines by this goroutine's next
+			// operation on the same mutex
+			if rr.Chance(1, 3) {
+				time.Sleep(time.Duration(rr.Range(50, 400)) * time.Microsecond)
 			}
 		}
 	}
@@ -182,7 +193,11 @@ func c10Conn(k *core.Case) {
 			for i := 0; i < nops; i++ {
 				switch rr.Intn(26) {
 				case 0:
-					tr.do("Conn.Read", func() { conn.Read(buf) })
+					rb := buf
+					if rr.Chance(1, 3) {
+						rb = make([]byte, 2) // the capacity counts, not the length
+					}
+					tr.do("Conn.Read", func() { conn.Read(rb) })
 				case 1:
 					tr.do("Conn.ReadMessage", func() { conn.ReadMessage(1 << 20) })
 				case 2, 3, 4:
